@@ -3,6 +3,7 @@ package main
 import (
 	"fmt"
 	"strings"
+	"time"
 
 	log "github.com/go-spring/log"
 	zzvrt "github.com/go-spring/log/zzvrt"
@@ -92,7 +93,7 @@ func crashScenario(c c03Cfg, b zzvrt.Bounds, faultOps ...string) *zzvrt.Scenario
 	// reference lines: each event formatted alone
 	resetAll()
 	var ro crashObs
-	rx := zzvrt.Run(func() { crashRun(c, [][]c03Event{all}, &ro, true, faultOp) }, nil, zzvrt.RunOpts{Bounds: zzvrt.Bounds{Horizon: 100000}})
+	rx := zzvrt.Run(func() { crashRun(c, [][]c03Event{all}, &ro, true, faultOp) }, nil, zzvrt.RunOpts{Bounds: zzvrt.Bounds{Horizon: 100000}, Start: c.start()})
 	lineOf := map[string]string{}
 	isLine := map[string]bool{}
 	for _, l := range strings.SplitAfter(crashTarget(rx, c), "\n") {
@@ -107,7 +108,7 @@ func crashScenario(c c03Cfg, b zzvrt.Bounds, faultOps ...string) *zzvrt.Scenario
 	return &zzvrt.Scenario{
 		Before: func() { resetAll(); o = crashObs{} },
 		Body:   func() { crashRun(c, c.threads, &o, false, faultOp) },
-		Opts:   zzvrt.RunOpts{Bounds: b},
+		Opts:   zzvrt.RunOpts{Bounds: b, Start: c.start()},
 		Check: func(x *zzvrt.Exec) (string, []zzvrt.Violation) {
 			key := c.sink + "/" + c.layout
 			var v []zzvrt.Violation
@@ -211,6 +212,18 @@ func init() {
 						return crashScenario(c03Cfg{layout: layout, sink: sink, threads: shapes[shape]}, b)
 					})
 				}
+				if sink == "rolling" && shape == "2x2" {
+					// the same with file creations failing at up to two (consecutive) boundaries: nothing accepted is dropped
+					register("C03", fmt.Sprintf("c03/rolling-boundaries+failed-creations/%s/%s", layout, shape), "qt", func(tier string) *zzvrt.Scenario {
+						b := zzvrt.Bounds{Preempt: 0, Horizon: 5000}
+						b.Env[zzvrt.SeamTick] = 3
+						b.Env[zzvrt.SeamFault] = 2
+						if tier == "thorough" {
+							b.Preempt = 1
+						}
+						return crashScenario(c03Cfg{layout: layout, sink: sink, threads: shapes[shape]}, b)
+					})
+				}
 				if shape == "1x3" {
 					// transient write faults before the crash point: a refused write loses its own line only
 					register("C20", fmt.Sprintf("c20/%s/%s/%s/transient-write-faults", sink, layout, shape), "qt", func(tier string) *zzvrt.Scenario {
@@ -236,6 +249,23 @@ func init() {
 						}
 						return crashScenario(c03Cfg{layout: layout, sink: sink, threads: shapes[shape]}, b)
 					})
+				}
+				if sink == "rolling" && shape == "1x3" {
+					// a process west of UTC whose retention is shorter than the zone offset: the cleanup after a rotation
+					// must leave the file being written (and the line just acknowledged) where it is
+					for _, z := range []struct {
+						name string
+						off  int
+						age  string
+					}{{"UTC-8", -8 * 3600, "6"}, {"UTC+9", 9 * 3600, "6"}} {
+						z := z
+						register("C20", fmt.Sprintf("c20/%s/%s/%s/zone=%s/maxAge=%s", sink, layout, shape, z.name, z.age), "qt", func(tier string) *zzvrt.Scenario {
+							b := zzvrt.Bounds{Preempt: 1, Horizon: 5000}
+							b.Env[zzvrt.SeamCrash] = 1
+							b.Env[zzvrt.SeamTick] = 2
+							return crashScenario(c03Cfg{layout: layout, sink: sink, threads: shapes[shape], zone: time.FixedZone(z.name, z.off), maxAge: z.age}, b)
+						})
+					}
 				}
 				if sink == "rolling" && shape == "1x3" {
 					// the same with interval boundaries and failing file creations before the crash point
